@@ -18,12 +18,14 @@ LEVEL = 'exploration'
 RULE = ('all well-formed schedules up to length L over {start g, advance g (incl. the exhausting advance), close g, '
         'enter context, exit context (LIFO, depth <= 2), read element, write element} for G generators with different '
         'chunk parameters (quick: G=2, L<=5; thorough: G=3, L<=6 and G=2, L=7, plus random schedules of length 8-14), '
-        'each completed by every order of finishing the survivors; one forked child per schedule on a 4.8 MB array. '
+        'each completed by every order of finishing the survivors; the same for a read-only handle with r+ contexts and '
+        'generators of differing access modes (without writes); one forked child per schedule on a 4.8 MB array. '
         'Non-trivial = at least two users of the array overlap in time; distinct by the full action sequence')
 EXHAUSTIVE = True
 EXHAUSTIVE_PART = 'all schedules up to the length bound for the given number of generators'
 ASSUMPTIONS = ['single-threaded interleavings only (generators and contexts in one thread)',
-               'all contexts and generators use the handle\'s own mode r+']
+               'in the mixed-access-mode schedules (read-only handle, r+ contexts, generators with differing modes) no element '
+               'writes are issued: whether a write through a nested r+ context on a read-only owner must succeed is not fixed by the statement']
 ANCHORS = ['array:Array._open_array', 'array:Array.iterchunks', 'array:Array.open_array',
            'array:Array.__getitem__', 'array:Array.__setitem__']
 REQUIRED = ['mon.child_status', 'mon.chunk_values', 'mon.fdmap_end', 'mon.writes_persist']
@@ -136,6 +138,13 @@ def cases(tier, seed):
                     continue
                 seen.add(full)
                 yield {'G': G, 'sched': list(full)}
+    # ---- mixed access modes: the handle is read-only, contexts ask for 'r+', generators alternate
+    for G, L in ([(2, 4)] if tier == 'quick' else [(2, 6), (3, 5)]):
+        for seq, status, depth in enumerate_schedules(G, L):
+            if 'W' in seq:
+                continue            # element writes through a read-only handle are C11's business
+            for comp in completions(status, depth):
+                yield {'G': G, 'sched': list(seq + comp), 'modes': 'mixed'}
     if tier == 'thorough':
         rng = random.Random(f'C19:{seed}')
         for k in range(20000):
@@ -191,12 +200,13 @@ def setup(env):
     _arr['path'] = path
 
 
-def execute(env, sched):
+def execute(env, sched, modes=None):
     """Runs inside the forked child.  Returns list of problems (strings)."""
     D = env.darr
     path = _arr['path']
     model = np.fromfile(path / 'arrayvalues.bin', dtype='<f8')
-    a = D.Array(path, accessmode='r+')
+    mixed = modes == 'mixed'
+    a = D.Array(path, accessmode='r' if mixed else 'r+')
     problems = []
     gens, gpos, ctxs = {}, {}, []
     rw = 0
@@ -204,7 +214,7 @@ def execute(env, sched):
     for step, act in enumerate(sched):
         if act[0] == 'S':
             g = int(act[1])
-            gens[g] = a.iterchunks(**GPARAMS[g])
+            gens[g] = a.iterchunks(**GPARAMS[g], **({'accessmode': [None, 'r+', 'r'][g]} if mixed else {}))
             gpos[g] = 0
         elif act[0] == 'A':
             g = int(act[1])
@@ -228,7 +238,7 @@ def execute(env, sched):
         elif act[0] == 'C':
             gens[int(act[1])].close()
         elif act == 'E':
-            cm = a.open_array()
+            cm = a.open_array(accessmode='r+') if mixed and len(ctxs) == 0 else a.open_array()
             cm.__enter__()
             ctxs.append(cm)
         elif act == 'X':
@@ -258,7 +268,7 @@ def execute(env, sched):
 def run_case(case, env):
     res = Result()
     sched = case['sched']
-    info = run_forked(lambda: execute(env, sched), timeout=120, faultlog_dir=str(env.scratch.root))
+    info = run_forked(lambda: execute(env, sched, case.get('modes')), timeout=120, faultlog_dir=str(env.scratch.root))
     res.count('mon.child_status')
     res.count(f'child.{info["status"]}')
     res.dim('schedule_length', len(sched))
@@ -283,5 +293,6 @@ def run_case(case, env):
                 else 'wrong-value'
             res.fail(kind, f'schedule {" ".join(sched)}: {p}', schedule=sched)
     res.nontrivial = overlap(sched)
-    res.sig = ' '.join(sched)
+    res.sig = ' '.join(sched) + (' /mixed-modes' if case.get('modes') else '')
+    res.dim('access_modes', case.get('modes') or 'all r+')
     return res
